@@ -30,6 +30,9 @@ def assertion(B, dump, r):
 
 
 def run_task(task):
+    if task["params"].get("mode") == "models":
+        from checks import c02_models
+        return c02_models.run_task(task)
     from engine import oracles
     oracles.install()
     oracles.LIST_ORDER = task["params"].get("order", "canonical")
@@ -50,6 +53,9 @@ def run_task(task):
 
 
 def replay(rec):
+    if rec["params"].get("mode") == "models":
+        from checks import c02_models
+        return c02_models.replay(rec)
     B = ConcreteNet.from_bnet(rec["rules"])
     dump, r = run_ops(rec["rules"], rec["params"]["mode"], B.names)
     parts = assertion(B, dump, r)
@@ -72,6 +78,25 @@ def tasks(tier, seed, selftest=False):
         for cube in common.cubes(24, k):
             T.append({"prop": PROP, "family": "U3", "label": f"U3/{mode}", "timebox": box, "seed": seed, "cube": cube,
                       "params": {"mode": mode, "order": "canonical"}})
+    if selftest:
+        return T
+    # published models: the expanded nodes of a size-limited BFS / DFS expansion, decided by z3 (checks/c02_models.py)
+    import glob
+    import os
+    q = tier != "thorough"
+    mdir = os.path.join(os.environ.get("VERIF_REPO", "/repo"), "models/bbm-bnet-inputs-true")
+    paths = sorted(glob.glob(os.path.join(mdir, "*.bnet")), key=os.path.getsize)
+    small, mid, large = paths[:120], paths[120:180], paths[180:]
+    for i in range(0, len(small), 12):
+        T.append({"prop": PROP, "family": "-", "label": "models/small", "timebox": 15, "seed": seed,
+                  "params": {"mode": "models", "models": small[i:i + 12], "strats": ["bfs", "dfs"], "max_nodes": 6 if q else 12}})
+    for i in range(0, len(mid), 3):
+        T.append({"prop": PROP, "family": "-", "label": "models/medium", "timebox": 20 if q else 120, "seed": seed,
+                  "params": {"mode": "models", "models": mid[i:i + 3], "strats": ["bfs"] if q else ["bfs", "dfs"], "max_nodes": 3 if q else 8}})
+    if not q:
+        for pth in large:
+            T.append({"prop": PROP, "family": "-", "label": "models/large", "timebox": 150, "seed": seed,
+                      "params": {"mode": "models", "models": [pth], "strats": ["bfs"], "max_nodes": 4}})
     return T
 
 
@@ -79,7 +104,8 @@ def main(tier, seed, t0, selftest=False):
     results = common.run_tasks(tasks(tier, seed, selftest))
     return common.finish(PROP, tier, seed, "model_checking", results, t0, selftest=selftest, functions=FUNCTIONS,
                          bounds={"families": "U2 exhaustive; U3 (3 variables, unrestricted) " + ("to exhaustion" if tier == "thorough" else "time-boxed slice per cube"),
-                                 "outside": "n>3; oracle list orders other than canonical/reversed"},
+                                 "published models": "expanded nodes of a size-limited BFS/DFS expansion (quick: 120 small models x 6 nodes, 60 medium x 3; thorough: all 210): node closed under percolation (z3 least fixed point over all states), motifs are trap spaces, maximal, percolate to their child, and no trap space inside the node avoids all listed motifs (z3 over the validated Petri net); leaves of a limited expansion are not claimed minimal",
+                                 "outside": "n>3 for the symbolic families; oracle list orders other than canonical/reversed"},
                          assumptions=["clingo enumerates exactly the subset-minimal/maximal models (checked on every representative)",
                                       "AEON Percolation.percolate_subspace = PERC (checked on every representative)",
                                       "trappist/percolate_space internals are decided by C09/C10/C11"])
